@@ -7,7 +7,6 @@ import (
 	"log"
 	"os"
 	"runtime/debug"
-	"runtime/pprof"
 	"strings"
 	"time"
 
@@ -43,20 +42,6 @@ func main() {
 		c.RunReplay(v)
 	}
 	if len(os.Args) > 1 && os.Args[1] == "noop" {
-		return
-	}
-	if len(os.Args) > 1 && os.Args[1] == "profile" {
-		f, _ := os.Create("/dev/shm/verif-c07.prof")
-		_ = pprof.StartCPUProfile(f)
-		t0 := time.Now()
-		var n int64
-		for idx := int64(3000); idx < 3300; idx++ {
-			r := boolEval(boolFamilies["main"], idx, "quick")
-			n += r.Evals
-		}
-		pprof.StopCPUProfile()
-		f.Close()
-		fmt.Println(n, "searches", time.Since(t0), time.Since(t0)/time.Duration(n), "per search")
 		return
 	}
 	if len(os.Args) > 1 && os.Args[1] == "probe" {
